@@ -217,7 +217,7 @@ void op_allocfail(const Case& c, TaskCtx& t, Outcome& o) {
   bytes msg = msg_from_case(c);
   bytes sig;
   if (target != "keygen" && !honest_signature(k, msg, sig))
-    CHECK_FAIL("C01.sign_failed", "honest signing failed");
+    FAIL_STOP("C01.sign_failed", "honest signing failed");
   bytes vsig = sig;
   if (target == "verifybad") {
     size_t pos = (size_t)(c.u("bit", 12345) % vsig.size());
